@@ -98,12 +98,7 @@ func runC02(c *kit.Ctx) {
 	}
 	// unregisterRPC looks up and deletes the same id and returns the looked-up call
 	{
-		var idParam *ssa.Parameter
-		for _, pa := range unreg.Params {
-			if pa.Name() == "id" || pa.Type().String() == "uint32" {
-				idParam = pa
-			}
-		}
+		idParam := paramOfType(unreg, "uint32", 0)
 		lookupOK, deleteOK, retOK := false, false, false
 		var looked ssa.Value
 		kit.Instrs(unreg, func(in ssa.Instruction) {
@@ -130,12 +125,7 @@ func runC02(c *kit.Ctx) {
 	// ---- R2 ---------------------------------------------------------------
 	c.StartRule("R2", "id on the wire = id registered for the same call", 2)
 	{
-		var rpcParam *ssa.Parameter
-		for _, pa := range send.Params {
-			if pa.Name() == "rpc" {
-				rpcParam = pa
-			}
-		}
+		rpcParam := paramOfType(send, "/hrpc.Call", 0)
 		regs := kit.Calls(send, kit.M("region", "*client", "registerRPC"))
 		mps := kit.Calls(send, kit.M("region", "", "marshalProto"))
 		good := len(regs) == 1 && len(mps) == 1 && rpcParam != nil
